@@ -83,7 +83,7 @@ func NewVerifier(repo, verifDir string) (*Verifier, error) {
 		keep = append(keep, p)
 	}
 	v.pkgs = keep
-	prog, spkgs := ssautil.AllPackages(keep, ssa.NaiveForm|ssa.InstantiateGenerics)
+	prog, spkgs := ssautil.Packages(keep, ssa.NaiveForm|ssa.InstantiateGenerics)
 	prog.Build()
 	v.prog, v.spkgs = prog, spkgs
 	v.fset = prog.Fset
